@@ -120,12 +120,12 @@ let register () =
 
   (* ---- casync protocol framing ---- *)
   Drv.register "c14.writemsg" (fun a -> match a with
-    | [t; body] -> hex_of_bytes (Protocol.write_message { Protocol.m_type = n_of_string t; Protocol.m_body = bytes_of_hex body })
+    | [t; body] -> hex_of_bytes (ProtocolSession.write_message { ProtocolSession.m_type = n_of_string t; ProtocolSession.m_body = bytes_of_hex body })
     | _ -> "ERR args");
   Drv.register "c14.readmsg" (fun a -> match a with
-    | [stream] -> (match Protocol.read_message (bytes_of_hex stream) with
-        | Protocol.RMsg (m, rest) -> Printf.sprintf "msg %s %s %s" (string_of_n m.Protocol.m_type) (hex_of_bytes m.Protocol.m_body) (hex_of_bytes rest)
-        | Protocol.RErr -> "error")
+    | [stream] -> (match ProtocolSession.read_message (bytes_of_hex stream) with
+        | ProtocolSession.RMsg (m, rest) -> Printf.sprintf "msg %s %s %s" (string_of_n m.ProtocolSession.m_type) (hex_of_bytes m.ProtocolSession.m_body) (hex_of_bytes rest)
+        | ProtocolSession.RErr -> "error")
     | _ -> "ERR args");
 
   (* ---- one protocol session: c14.session <present id:data,...> <failing ids> <requested ids> <zdecomp tab> <zcomp tab>
@@ -140,10 +140,10 @@ let register () =
             | Some d -> GChunk { ch_data = d; ch_storage = []; ch_conv = []; ch_id = i; ch_idcalc = true }
             | None -> GMissing in
         (try
-          let rs = Protocol.session Sha256.h_model zc zd store (Stdlib.List.map Sha256.id_of_hex (split_on ',' ids)) in
+          let rs = ProtocolSession.session Sha256.h_model zc zd store (Stdlib.List.map Sha256.id_of_hex (split_on ',' ids)) in
           let out = Stdlib.List.map (fun r -> match r with
-              | Protocol.PData c -> (match chunk_data zd c with Some d -> "D:" ^ hex_of_bytes d | None -> "D:?")
-              | Protocol.PMissing -> "M" | Protocol.PErr -> "E") rs in
+              | ProtocolSession.PData c -> (match chunk_data zd c with Some d -> "D:" ^ hex_of_bytes d | None -> "D:?")
+              | ProtocolSession.PMissing -> "M" | ProtocolSession.PErr -> "E") rs in
           if out = [] then "-" else Stdlib.String.concat "," out
         with Drv_c15.Table_miss w -> "ERR table miss " ^ w)
     | _ -> "ERR args")
